@@ -466,11 +466,15 @@ Proof.
   apply in_app_or in Ie. destruct Ie as [Ie|Ie]; [eapply cells_of_row_nonneg; [| |exact Ie]; lia|].
   eapply (IH (y + 1)); [|exact E|exact Ie]. lia.
 Qed.
+Lemma cellbuffer_of_text_nonneg s css cb e : cellbuffer_of_text s css = Ok cb -> In e (cb_cells cb) -> 0 <= cx (fst e) /\ 0 <= cy (fst e).
+Proof.
+  intros H Ie. unfold cellbuffer_of_text in H. destruct (cells_of_rows 0 (string_buffer s)) as [[cells escs]|] eqn:E; cbn [bind] in H; [|discriminate].
+  inversion H; subst. cbn [cb_cells] in Ie. eapply (cells_of_rows_nonneg _ 0); [|exact E|exact Ie]. lia.
+Qed.
 Lemma cellbuffer_nonneg input cb e : cellbuffer_from input = Ok cb -> In e (cb_cells cb) -> 0 <= cx (fst e) /\ 0 <= cy (fst e).
 Proof.
   assert (G : forall s css, cellbuffer_of_text s css = Ok cb -> In e (cb_cells cb) -> 0 <= cx (fst e) /\ 0 <= cy (fst e)).
-  { intros s css H Ie. unfold cellbuffer_of_text in H. destruct (cells_of_rows 0 (string_buffer s)) as [[cells escs]|] eqn:E; cbn [bind] in H; [|discriminate].
-    inversion H; subst. cbn [cb_cells] in Ie. eapply (cells_of_rows_nonneg _ 0); [|exact E|exact Ie]. lia. }
+  { intros s css H Ie. eapply cellbuffer_of_text_nonneg; eauto. }
   unfold cellbuffer_from. destruct (find_sub LEGEND_MARK input []) as [[before from]|]; [destruct (parse_css_legend (uncrlf from))|]; apply G.
 Qed.
 
@@ -505,4 +509,25 @@ Proof.
   destruct (endorse_cells_in_canvas (cb_cells cb) _ _ CI acc groups E) as [A G]. split.
   - eapply Forall_impl; [|exact A]. intros f [_ [_ W]]. exact W.
   - eapply Forall_impl; [|exact G]. intros g Fg. eapply Forall_impl; [|exact Fg]. intros f [_ [_ W]]. exact W.
+Qed.
+
+(** the bounds of a fragment lie within its box *)
+Lemma within_bbox B f : within B f -> box_in (bbox f) B.
+Proof.
+  unfold within, fbox. destruct (bbox f) as [[[x0 y0] x1] y1], (extent f) as [[[u0 v0] u1] v1], B as [[[p0 q0] p1] q1]. unfold hull, box_in. lia.
+Qed.
+(** the facts the canvas theorem needs, for any cell map with non-negative cells *)
+Lemma cells_in_max cells : (forall e, In e cells -> 0 <= cx (fst e) /\ 0 <= cy (fst e)) ->
+  forall e, In e cells ->
+    0 <= cx (fst e) /\ cx (fst e) <= cx (cells_max cells) /\ cx (fst e) + char_cols (snd e) - 1 <= cx (cells_max cells)
+    /\ 0 <= cy (fst e) /\ cy (fst e) <= cy (cells_max cells).
+Proof.
+  intros N e Ie. destruct (N e Ie) as [N1 N2]. destruct (cells_max_bounds _ e Ie) as [M1 [M2 M3]]. repeat split; assumption.
+Qed.
+Lemma cells_max_row_lt cells h : cells <> [] -> (forall e, In e cells -> cy (fst e) < h) -> cy (cells_max cells) < h.
+Proof.
+  destruct cells as [|[c0 z0] t]; [congruence|]. intros _ H. unfold cells_max; cbn [cy].
+  assert (zmax_list (cy c0) (map (fun e : cell * Z => cy (fst e)) ((c0, z0) :: t)) <= h - 1); [|lia].
+  apply zmax_list_le; [specialize (H (c0, z0) (or_introl eq_refl)); cbn in H; lia|].
+  apply Forall_forall. intros x Hx. apply in_map_iff in Hx. destruct Hx as [e [<- Ie]]. specialize (H e Ie). lia.
 Qed.
